@@ -226,6 +226,12 @@ Proof. exact @Transfer4.gen_polygon_winding_number. Qed.
 Theorem C11_gen_bbox_outside_zero :
   forall (ls : list (seg2 R)) (b0 : bbox R) (x y : R), polygon_query ls b0 x y -> BBox_includes ROps b0 {| px := x; py := y |} = false -> Winding.Path_windingNumberOfPoint ROps (map SLine ls) {| px := x; py := y |} = Sample.Returns 0%Z.
 Proof. exact @Transfer4.gen_bbox_outside_zero. Qed.
+Theorem C11_gen_mixed_even_odd :
+  forall (srs : xpath) (b0 : bbox R) (x y : R), mixed_query srs b0 x y -> Winding.Path_pointIsInside ROps (map fst srs) {| px := x; py := y |} = Sample.Returns (Nat.odd (count_if (left_c x) srs)) /\ Nat.odd (count_if (left_c x) srs) = Nat.odd (count_if (right_c x) srs).
+Proof. exact @Transfer4.gen_mixed_even_odd. Qed.
+Theorem C11_gen_mixed_winding_number :
+  forall (srs : xpath) (b0 : bbox R) (x y : R), mixed_query srs b0 x y -> Winding.Path_windingNumberOfPoint ROps (map fst srs) {| px := x; py := y |} = Sample.Returns (Z.abs (signed_if (left_c x) srs)) /\ Z.abs (signed_if (left_c x) srs) = Z.abs (signed_if (right_c x) srs).
+Proof. exact @Transfer4.gen_mixed_winding_number. Qed.
 
 Print Assumptions C11_abs_sum_signs_parity.
 Print Assumptions C11_winding_sum_parity_any.
@@ -284,3 +290,5 @@ Print Assumptions C11_gen_pointIsInside_parity.
 Print Assumptions C11_gen_polygon_even_odd.
 Print Assumptions C11_gen_polygon_winding_number.
 Print Assumptions C11_gen_bbox_outside_zero.
+Print Assumptions C11_gen_mixed_even_odd.
+Print Assumptions C11_gen_mixed_winding_number.
